@@ -43,7 +43,7 @@ fn coords(v: Option<MatrixCoordinates>) -> Value {
     match v { Some(mc) => json!([mc.row, mc.col]), None => json!([]) }
 }
 
-/// one table, one backend: max / argmax / threshold through the pipeline traits
+// one table, one backend: max / argmax / threshold through the pipeline traits
 thread_local! {
     static REUSE_TOGGLE: std::cell::Cell<usize> = const { std::cell::Cell::new(0) };
 }
